@@ -323,13 +323,75 @@ Proof.
   subst s'. unfold step in Hw. cbn [step_gen] in Hw.
   destruct (take_new_some _ _ _ Hp) as (t' & p' & T). rewrite T in Hw.
   destruct (take_new_split _ _ _ _ T) as (l1 & l2 & E & ->).
-  rewrite pending_callers_apply_new in Hw. simp_st in Hw.
+  rewrite pending_callers_apply_new in Hw. cbn [pending set_pending] in Hw.
   unfold live, liveC in Hnd0. rewrite E in Hnd0.
   change (PNew w t' :: l2) with ([PNew w t'] ++ l2) in Hnd0.
   rewrite !pending_callers_app in Hnd0. cbn [pending_callers app] in Hnd0.
   rewrite pending_callers_app in Hw.
   rewrite !app_assoc in Hnd0. apply NoDup_remove_2 in Hnd0. apply Hnd0.
   rewrite <- !app_assoc. rewrite !in_app_iff. apply in_app_or in Hw. tauto.
+Qed.
+
+(* without any shutdown: when nothing is parked, every unanswered call waits on an incomplete
+   torrent, and if no piece arrives for leecher_tti the next tick answers all of them *)
+Lemma results_step_mono c s o : Inv s -> incl (results s) (results (step c s o)).
+Proof.
+  intros I. pose proof (Inv_step c s o I) as I'. pose proof I as (K & _ & S).
+  unfold step in *. destruct o; cbn [step_gen] in *.
+  - destruct (_ && _); [apply incl_deliver|]. destruct (stopped s); simp_st; [apply incl_deliver | apply incl_refl].
+  - destruct (find_ctrl _ _); [|apply incl_refl]. destruct (_ || _); apply incl_refl.
+  - destruct (stopped s); apply incl_refl.
+  - apply incl_refl.
+  - apply incl_refl.
+  - destruct (stopped s); apply incl_refl.
+  - destruct (_ || _); apply incl_refl.
+  - destruct (take_new _ _) as [[t p']|] eqn:T; [|apply incl_refl].
+    destruct (take_new_split _ _ _ _ T) as (l1 & l2 & E & ->).
+    destruct (Core_pop_state s l1 _ l2 K E) as (K1 & F1 & L1); [discriminate|].
+    assert (Hnew : In (PNew w t) (pending s)) by (rewrite E; apply in_elt).
+    unfold Core in K. destruct K as [_ _ _ _ _ Kn _ _]. destruct (Kn w t Hnew) as (V & C & Sn).
+    destruct (apply_new_ok (set_pending s (l1 ++ l2)) w t K1 V C Sn) as [_ _ F2]. now destruct F2.
+  - destruct (remove_first_pev _ _) as [p'|] eqn:R; [|apply incl_refl].
+    destruct (remove_first_split _ _ _ R) as (l1 & l2 & E & ->).
+    destruct (apply_complete_ok s d l1 l2 K E) as [_ _ F]. now destruct F.
+  - destruct (remove_first_pev _ _) as [p'|] eqn:R; [|apply incl_refl].
+    destruct (remove_first_split _ _ _ R) as (l1 & l2 & E & ->).
+    pose proof (pop_ok s l1 _ l2 K E) as O1. specialize (O1 ltac:(discriminate) eq_refl).
+    destruct (apply_remove_ok _ h (ok_core _ _ _ O1)) as ([_ _ F] & _). now destruct F.
+  - destruct (remove_first_pev _ _) as [p'|] eqn:R; [|apply incl_refl].
+    destruct (remove_first_split _ _ _ R) as (l1 & l2 & E & ->).
+    pose proof (pop_ok s l1 _ l2 K E) as O1. specialize (O1 ltac:(discriminate) eq_refl).
+    unfold apply_tick. apply (results_tick_over c _ _ (ok_core _ _ _ O1)).
+  - destruct (remove_first_pev _ _) as [p'|] eqn:R; [|apply incl_refl].
+    unfold apply_shutdown. simp_st. eapply incl_tran; apply incl_deliver.
+Qed.
+
+Theorem quiescent_timeout_answers_all c kn ops : wf ops = true ->
+  stopped (run c kn ops) = false -> pending (run c kn ops) = [] ->
+  forall w, In w (callers ops) ->
+  exists r, In (w, r) (results (run c kn (ops ++ [Advance (leecher_tti c); TickSend; ApTick]))).
+Proof.
+  intros W St Pe w Hw. unfold run at 1, run_gen. rewrite fold_left_app. cbn [fold_left].
+  fold (run_gen true c kn ops). fold (run c kn ops). fold (step c).
+  set (s := run c kn ops) in *. pose proof (Inv_run c kn ops : Inv s) as I.
+  set (s1 := step c s (Advance (leecher_tti c))). pose proof (Inv_step c s (Advance (leecher_tti c)) I : Inv s1) as I1.
+  set (s2 := step c s1 TickSend). pose proof (Inv_step c s1 TickSend I1 : Inv s2) as I2.
+  destruct (no_lost_call c kn ops W w Hw) as [H|[[t H]|(c0 & Hc & Hwc & _ & H)]].
+  - apply in_map_iff in H. destruct H as [[w' r] [E H]]. cbn [fst] in E. subst w'. exists r.
+    apply (results_step_mono c s2 ApTick I2). apply (results_step_mono c s1 TickSend I1).
+    now apply (results_step_mono c s (Advance (leecher_tti c)) I).
+  - rewrite Pe in H. contradiction.
+  - destruct H as [H|H]; [|rewrite Pe in H; contradiction].
+    exists RTimeout.
+    assert (E2 : s2 = set_pending s1 (pending s1 ++ [PTick])).
+    { subst s2. unfold step. cbn [step_gen]. subst s1. unfold step. cbn [step_gen]. simp_st. now rewrite St. }
+    apply tick_answers with (x := c0); try assumption.
+    + rewrite E2. simp_st. apply in_or_app. right. now left.
+    + rewrite E2. exact Hc.
+    + rewrite E2. exact H.
+    + rewrite E2. subst s1. unfold step. cbn [step_gen]. simp_st.
+      destruct I as (K & _). unfold Core in K. destruct K as [_ Kc _ _ _ _ _ _].
+      destruct (Kc c0 Hc) as (_ & _ & Hl). lia.
 Qed.
 
 (* ---------- T6: the executable check accepts what the model does ---------- *)
